@@ -63,6 +63,10 @@ def gen_parameters(rng):
 def gen_conditions(rng, n=None, cyclic_ok=True):
     n = rng.randrange(0, 7) if n is None else n
     names = [f"C{i}" for i in range(n)]
+    # names that are also spellings of booleans / look like other things: a name is looked up as written
+    for special in ("True", "FALSE", "true", "AWS::NoValue", "12"):
+        if names and rng.random() < 0.15:
+            names[rng.randrange(len(names))] = special
     g = genexpr.ExprGen(rng, max_depth=2)
     defs = {}
     for i, name in enumerate(names):
@@ -118,6 +122,11 @@ def gen_resources(rng, cond_names, n=None, max_depth=3):
                 props[f"P{j}"] = g.any_expr()
             if rng.random() < 0.3:
                 props["Opt"] = {"Fn::If": [rng.choice(cond_names + ["IsProd"]), g.str_expr(2), {"Ref": "AWS::NoValue"}]}
+            if rng.random() < 0.2:
+                # one of the two is taken; the other section is not evaluated, whatever it holds
+                bad = rng.choice([{"Fn::Select": ["not-a-number", ["a"]]}, {"Fn::Split": ["", "abc"]}, {"Fn::Base64": ["a"]}, {"Fn::Join": ["-", "text"]}])
+                props["Lazy1"] = {"Fn::If": ["AlwaysTrue", g.str_expr(1), bad]}
+                props["Lazy2"] = {"Fn::If": ["AlwaysFalse", bad, g.str_expr(1)]}
             r = {"Type": rng.choice(["Custom::Thing", "AWS::SSM::Parameter", "AWS::Lambda::Function"]), "Properties": props}
         elif k == 3:
             r = {"Type": "AWS::S3::Bucket", "Properties": {"BucketName": g.str_expr(1), "Tags": [{"Key": "k", "Value": g.str_expr(2)}]}}
@@ -141,7 +150,8 @@ def gen_resources(rng, cond_names, n=None, max_depth=3):
 def gen_template(rng, max_depth=3, cyclic_ok=True):
     params, extra = gen_parameters(rng)
     conds = gen_conditions(rng, cyclic_ok=cyclic_ok)
-    conds.update({"IsProd": {"Fn::Equals": [{"Ref": "Env"}, "prod"]}, "IsDev": {"Fn::Not": [{"Condition": "IsProd"}]}})
+    conds.update({"IsProd": {"Fn::Equals": [{"Ref": "Env"}, "prod"]}, "IsDev": {"Fn::Not": [{"Condition": "IsProd"}]},
+                  "AlwaysTrue": {"Fn::Equals": ["a", "a"]}, "AlwaysFalse": {"Fn::Equals": ["a", "b"]}})
     items = list(conds.items())
     rng.shuffle(items)
     conds = dict(items)
